@@ -191,6 +191,32 @@ PROPS = {
             "The model performs date arithmetic on the wall clock and time arithmetic on the timeline as proved in C14_*; the "
             "implementation returned a different instant, duration, start of day or day length.",
     },
+    "C15": {
+        "lean_modules": ["TemporalModel.Props.C15"],
+        "suites": ["c15"],
+        "needs_zones": True,
+        "level_text": "Proof (about the reading of a TZif file, Model/Tzif.lean): C15_table_before_first (time type 0 before the "
+                      "first transition), C15_table_lookup (the type of the last transition at or before t, the transition second "
+                      "included), C15_offset_cases (table before the last transition, footer rule from it on), C15_rule_day_mwd "
+                      "(for every year the Mm.w.d day lies in the month, has the weekday, is the w-th / the last such day), "
+                      "C15_rule_day_julian (Jn never counts February 29, n does), C15_rule_transitions (start on the standard clock, "
+                      "end on the daylight clock), C15_possible_iff (the instants listed for a local date-time are exactly those "
+                      "that read as it; ascending), C15_cache_history_independent (with any history of earlier queries the caching "
+                      "provider answers what a fresh read gives). Tie: an independent TZif reader in the harness dumps every zone of "
+                      "/usr/share/zoneinfo (types, 64-bit transition table, footer text); the Lean model parses the footer and "
+                      "answers offset and local-time queries, compared with FsTzdbProvider at every listed transition (-1 day .. +1 "
+                      "day, the second itself, +-1 s), before the first transition, years 1..9999, around the rule-based transitions "
+                      "of 2038..9998, the local images of those instants, warm-vs-fresh provider, and check_identifier on every name "
+                      "in mixed case plus non-names.",
+        "level_note": "Trusted: Lean kernel (+propext, Classical.choice, Quot.sound); the harness's TZif reader and the model's "
+                      "POSIX-TZ parser (two independent readers against the crate's tzif/combine parsers); Spec/Gregorian.lean for "
+                      "dates; 'IANA names' = the TZif files of the zoneinfo tree minus localtime, posixrules, Factory. Leap-second "
+                      "records are ignored (as the crate does). ZonedDateTime-level behaviour on real zones follows from C13/C14 "
+                      "(any rule set) + this property (the rule set served is the file's).",
+        "why_difference_is_violation":
+            "The model answers from the TZif data as proved in C15_*; the provider returned a different offset, a different set "
+            "of instants, accepted/rejected an identifier differently, or its answer depended on earlier queries.",
+    },
     "C17": {
         "lean_modules": ["TemporalModel.Props.C17"],
         "suites": ["c17"],
